@@ -22,7 +22,7 @@ def run(tier, only=None):
     lawcheck.replay_all(R, "C04", behs, limit=300 if tier == "quick" else 3000)
     for r in check_exc(pmap(halve_as.run_job, halve_as.jobs(tier))):
         R.replayed += 1
-        R.case(r["key"], True, sample={"job": r["job"], "bad": [b[0] for b in r["bad"]]} if r["k"] % 5 == 0 else None, section="half_as")
+        R.case(r["key"], not r.get("inadmissible", False), sample={"job": r["job"], "bad": [b[0] for b in r["bad"]]} if r["k"] % 5 == 0 else None, section="half_as")
         for sig, payload in r["bad"]:
             R.violation(sig, {"job": r["job"], "detail": payload})
     R.assume(
